@@ -41,6 +41,7 @@ const (
 	OK              Behaviour = "ok"
 	CallError       Behaviour = "call_error"       // call: sets __call_error
 	CallTimeout     Behaviour = "call_timeout"     // call: exceeds its own timeout and reports it
+	CallSlow        Behaviour = "call_slow"        // call: takes HookSpec.SleepMs (may be far beyond its timeout) and succeeds
 	TaskExitNonZero Behaviour = "task_exit"        // hook task: exit code 3
 	TaskInvoluntary Behaviour = "task_involuntary" // hook task: exit code 0 but not a voluntary termination
 	TaskTimeout     Behaviour = "task_timeout"     // hook task: termination never reported
@@ -60,6 +61,8 @@ type HookSpec struct {
 	Critical  *bool     `json:"critical,omitempty"`
 	Behaviour Behaviour `json:"behaviour,omitempty"`
 	Gate      bool      `json:"gate,omitempty"`
+	// SleepMs is how long a CallSlow invocation takes.
+	SleepMs int `json:"sleep_ms,omitempty"`
 	// OnlyInv restricts Behaviour and Gate to the n-th invocation (1-based) of the hook; 0 = every invocation.
 	OnlyInv int `json:"only_inv,omitempty"`
 }
@@ -442,6 +445,15 @@ func (l *Lab) hookBegin(name string, r Record) (inv int, beh Behaviour, g chan s
 }
 
 func (l *Lab) waitGate(ch chan struct{}) { <-ch }
+
+func (l *Lab) sleepOf(name string) time.Duration {
+	l.mu.Lock()
+	defer l.mu.Unlock()
+	if hs := l.hooks[name]; hs != nil {
+		return time.Duration(hs.spec.SleepMs) * time.Millisecond
+	}
+	return 0
+}
 
 func (l *Lab) openGates() []*gate {
 	var out []*gate
